@@ -337,9 +337,15 @@ class SpatialTransform(DeviceProperty, Module, metaclass=ABCMeta):
             # Displacement field with domain different from output domain
             # - Use F.grid_sample() to resample displacement field and adjust vectors.
             if grid != self.grid() or align_corners != self.align_corners():
-                flow = FlowFields(data, grid=self.grid().reshape(data.shape[2:]))
+                flow = FlowFields(data, grid=self.grid().reshape(data.shape[2:]), axes=self.axes())
                 flow = flow.sample(grid)
                 data = flow.tensor()
+                if align_corners != self.align_corners():
+                    # FlowFields.sample() keeps the vectors in the named axes of this transformation.
+                    # Convert these to the cube axes of the output grid.
+                    data = U.move_dim(data, 1, -1)
+                    data = grid.transform_vectors(data, axes=self.axes(), to_axes=Axes.from_grid(grid))
+                    data = U.move_dim(data, -1, 1)
             # Displacement field with same domain as output grid, but differing size
             # - Use F.interpolate() to resize displacement field.
             elif grid.shape != data.shape[2:]:
